@@ -47,7 +47,8 @@ TRUSTED = [
     "M6 is never a delayed response: checked on the source (AST: only handle_resource assigns response.task) and by "
     "complete real pair-setup runs of the reference controller (harness/ref/pairsetup_client.py, srp_client.py)",
     "harness generators, harness/ref/dnslabel.py, harness/ref/xhm.py (independent oracles); a well-formed MAC "
-    "(XX:XX:XX:XX:XX:XX); safe_mode left at its default (False)",
+    "(XX:XX:XX:XX:XX:XX); safe_mode is a parameter of the event model (ordering for both values, flag tracking for the "
+    "default, C18_safe_mode_no_pairing_refresh for True) and scripts with safe_mode are tied but their staleness is not judged",
 ]
 
 MAC = "AA:BB:CC:7A:8F:A9"
@@ -1086,7 +1087,10 @@ def gen_sys_script(rng, big=False) -> Dict[str, Any]:
             steps.append({"step": "taskDone", "i": 0})
             busy.pop(0)
     steps.append({"step": "quiesce"})
-    return {"paired": paired, "conns": conns, "steps": steps, "acc": gen_sys_acc(rng)}
+    script = {"paired": paired, "conns": conns, "steps": steps, "acc": gen_sys_acc(rng)}
+    if rng.random() < 0.08:
+        script["safe_mode"] = True  # the driver's documented switch: finish_pair leaves the advertisement alone
+    return script
 
 
 def gen_real_script(rng) -> Dict[str, Any]:
@@ -1163,6 +1167,10 @@ BOUNDARY_SCRIPTS = [
     {"paired": [], "conns": {"0": None}, "acc": {"name": "x" * 70, "category": 255, "cfg0": 65534}, "steps": [
         {"step": "request", "conn": 0, "req": "m5real", "client": 1}, {"step": "appRefresh"}, {"step": "drain"},
         {"step": "configChanged"}, {"step": "configChanged"}, {"step": "exec", "i": 0}, {"step": "quiesce"}]},
+    # safe_mode: pairing completes, the response is written, no refresh is ever made for it
+    {"paired": [], "conns": {"0": None}, "safe_mode": True, "steps": [
+        {"step": "request", "conn": 0, "req": "m5", "client": 0, "ok": True}, {"step": "exec", "i": 0}, {"step": "drain"},
+        {"step": "appRefresh"}, {"step": "quiesce"}]},
     # failed M5 and unauthorised pairings requests change nothing
     {"paired": [], "conns": {"0": None}, "steps": [
         {"step": "request", "conn": 0, "req": "m5", "client": 0, "ok": False},
@@ -1275,6 +1283,8 @@ def impl_sys(m, script) -> Dict[str, Any]:
             driver.state.accessories_hash = driver.accessories_hash
             driver.state.config_version = ident["cfg0"]
             printed_payload = start_driver(env)
+            if script.get("safe_mode"):
+                driver.safe_mode = True
             connections: Dict[Any, Any] = {}
             protos = {}
             for k, session in script["conns"].items():
@@ -1525,6 +1535,8 @@ def oracle_sys(ctx: Ctx, script, got):
     #     histories made of protocol steps; `AccessoryDriver.unpair` called by the application itself is not
     #     a step with a response and does not refresh anything (the application has to ask for it, as e.g.
     #     Home Assistant does) -- such a script is judged only if a refresh was requested after the last such call
+    if script.get("safe_mode"):
+        quiesced = False  # with safe_mode the driver never refreshes after a pairing change (that is the switch)
     if quiesced and got.get("app_unpairs"):
         # a record built after the last application-level unpair reflects it
         quiesced = any(e["ev"] == "publish" for e in ev[got["app_unpairs"][-1]:])
@@ -1861,7 +1873,7 @@ def run(ctx: Ctx):
         lines.append({"layer": "advert", "op": "sys", "paired": script["paired"], "steps": got["model_steps"],
                       "sessions": [[int(k), v] for k, v in script["conns"].items() if v is not None],
                       "name": _cps(ident["name"]), "category": ident["category"], "mac": MAC, "cfg": ident["cfg0"],
-                      "setup_id": got["setup_id"]})
+                      "setup_id": got["setup_id"], "safe": bool(script.get("safe_mode"))})
         impl.append(canon_sys_impl(got))
         post.append(("sys", script, canon_sys_model))
         changing = [r for r in got["reqs"] if r["m5ok"] or ((r["before"] == 0) != (r["after"] == 0))]
@@ -1870,6 +1882,8 @@ def run(ctx: Ctx):
         for s in script["steps"]:
             st.hit("op", "sys-" + (s.get("req") or s["step"]))
         st.hit("outcome", "sys-pairing-changed" if changing else "sys-no-change")
+        if script.get("safe_mode"):
+            st.hit("outcome", "sys-safe-mode-script")
         st.hit("outcome", "sys-publishes", sum(1 for e in got["events"] if e["ev"] == "publish"))
         st.hit("outcome", "sys-sessions-closed", len(got["closed"]))
         if got.get("printed_payload") is not None:
